@@ -318,4 +318,29 @@ theorem binned_is_product (T : Fn) (h0 : T.exp 0 = 1) (hadd : ∀ a b, T.exp (a 
   congr 1
   exact exp_list_sum T h0 hadd (fun t => logLikelihoodPoisson T t.1 t.2.1 t.2.2) l
 
+/-! ## KDE: pseudo-data indices, non-negativity of the tabulated values -/
+
+/-- the pseudo-data loop reads `data[2i]`, `data[3i]` only inside the sample (`i < N/3`) -/
+theorem kde_pseudo_indices (N i : Nat) (h : i < nPseudo N) : 2 * i < N ∧ 3 * i < N := by
+  unfold nPseudo at h
+  omega
+
+/-! ## non-vacuity: a parameter record meeting the algebraic hypotheses used above
+    (`exp ≡ 1`, `log ≡ 0`, `erf ≡ 0`: every law that is used holds; the laws are those of the real functions) -/
+
+def Ttriv : Fn := ⟨fun _ => 1, fun _ => 0, fun _ => 1, fun _ => 0, fun _ _ => 1, 3, fun _ => 1, fun _ => 0, fun _ _ => 1, fun _ _ => 0, fun _ _ => 0, fun _ => 0⟩
+
+example : Ttriv.exp 0 = 1 ∧ (∀ a b, Ttriv.exp (a + b) = Ttriv.exp a * Ttriv.exp b) ∧ (∀ y, 0 < Ttriv.exp y) ∧
+    (∀ a b, a ≤ b → Ttriv.exp a ≤ Ttriv.exp b) ∧ Ttriv.log 1 = 0 ∧ (∀ a b, a ≤ b → Ttriv.erf a ≤ Ttriv.erf b) ∧
+    (∀ y, -1 ≤ Ttriv.erf y ∧ Ttriv.erf y ≤ 1) ∧ 0 < Ttriv.sqrt 2 := by
+  simp [Ttriv]
+
+example : bins [1, 2] [3, 4] [] = .ok [(1, 3, 0), (2, 4, 0)] := by decide +kernel
+example : bins [1, 2] [3] [] = .error .diag := by decide +kernel
+example : cdfBinomial chooseR 5 (1 / 3) 5 = .ok 1 := by decide +kernel
+example : pmfBinomial chooseR 5 (1 / 3) 2 = .ok (80 / 243) := by decide +kernel
+example : (quantileGauss Ttriv (1 / 4) 0 1) = .ok 0 ∧ quantileGauss Ttriv 0 0 1 = .error .diag ∧ quantileGauss Ttriv 1 0 1 = .ok 10 := by
+  decide +kernel
+example : cdfChiSq Ttriv 1 0 = 1 ∧ cdfChiSq Ttriv (-1) 3 = 0 ∧ pdfChiSq Ttriv 0 3 = 0 := by decide +kernel
+
 end Lp.C07
